@@ -1,4 +1,12 @@
-(* AI/Search.v (draft): ai/minimax.go (pvSearch, zwSearch, ttGet/ttPut/teSuffices, recordCut, nullMoveOK, Analyze) and ai/moves.go *)
+(* Search.v: code-shaped model of ai/minimax.go (pvSearch, zwSearch, ttGet/ttPut/teSuffices, recordCut, nullMoveOK, Analyze,
+   AnalyzeAll) and ai/moves.go (moveGenerator), including cancellation: the context is cancelled inside the k-th leaf
+   evaluation of an Analyze call (cancel_at = k; 0 = never), which is how the harness injects it.
+
+   The model describes the REPAIRED code of /repo:
+     - 02f56c9  moveGenerator.snapshotTE: the generator works on a copy of the table entry taken when it is created;
+     - 8daa71e  Analyze seeds the value from an exact root table entry.
+   The section variable [pinned] selects the code before these two repairs (pinned = true: the generator re-reads the
+   table slot on every Next, and Analyze starts from v = 0).  Everything exported at the end of the file is the fixed variant. *)
 From Coq Require Import NArith ZArith List Bool Lia.
 Require Import Board Move GameOver Eval.
 Import ListNotations.
@@ -32,7 +40,10 @@ Record sstate := {
   response : list (rmove * rmove);
   fpv : list (list rmove);          (* frame[ply].pv: 15 slots each *)
   fm : list rmove;                  (* frame[ply].m *)
-  st : stats }.
+  st : stats;
+  evals : Z;                        (* leaf evaluations since the start of this Analyze *)
+  cancel_at : Z }.                  (* 0 = never; k = the context is cancelled inside the k-th leaf evaluation *)
+Definition cancelled (s : sstate) : bool := (0 <? cancel_at s) && (cancel_at s <=? evals s).
 
 (* ---- small helpers ---- *)
 Definition rmove_eqb (a b : rmove) : bool := (mX a =? mX b) && (mY a =? mY b) && (mT a =? mT b)%N && (mS a =? mS b)%N.   (* struct equality *)
@@ -48,15 +59,16 @@ Definition znth {A} (l : list A) (i : Z) (d : A) : A := nth (Z.to_nat i) l d.
 Definition set_prefix (arr l : list rmove) : list rmove := l ++ skipn (length l) arr.
 
 Definition upd_st (s : sstate) (f : stats -> stats) : sstate :=
-  {| table := table s; history := history s; response := response s; fpv := fpv s; fm := fm s; st := f (st s) |}.
+  {| table := table s; history := history s; response := response s; fpv := fpv s; fm := fm s; st := f (st s); evals := evals s; cancel_at := cancel_at s |}.
 Definition set_table (s : sstate) (t : list entry) : sstate :=
-  {| table := t; history := history s; response := response s; fpv := fpv s; fm := fm s; st := st s |}.
+  {| table := t; history := history s; response := response s; fpv := fpv s; fm := fm s; st := st s; evals := evals s; cancel_at := cancel_at s |}.
 Definition set_fpv (s : sstate) (ply : Z) (arr : list rmove) : sstate :=
-  {| table := table s; history := history s; response := response s; fpv := set_nth (fpv s) (Z.to_nat ply) arr; fm := fm s; st := st s |}.
+  {| table := table s; history := history s; response := response s; fpv := set_nth (fpv s) (Z.to_nat ply) arr; fm := fm s; st := st s; evals := evals s; cancel_at := cancel_at s |}.
 Definition set_fm (s : sstate) (ply : Z) (m : rmove) : sstate :=
-  {| table := table s; history := history s; response := response s; fpv := fpv s; fm := set_nth (fm s) (Z.to_nat ply) m; st := st s |}.
+  {| table := table s; history := history s; response := response s; fpv := fpv s; fm := set_nth (fm s) (Z.to_nat ply) m; st := st s; evals := evals s; cancel_at := cancel_at s |}.
 
 Section Srch.
+Variable pinned : bool.            (* true = the code before the repairs 02f56c9 / 8daa71e *)
 Variable basis : list N.
 Variable cfg : config.
 
@@ -82,6 +94,7 @@ Definition tt_get (s : sstate) (h : N) : option nat :=
 (* ttPut: moves slot i1 to i2 when occupied, returns slot i1 *)
 Definition tt_put (s : sstate) (h : N) : sstate * option nat :=
   match table s with [] => (s, None) | _ =>
+    if cancelled s then (s, None) else
     let '(i1, i2) := tt_slots s h in
     let e1 := nth i1 (table s) entry0 in
     let t := if negb (e_hash e1 =? 0)%N then set_nth (table s) i2 e1 else table s in
@@ -92,16 +105,22 @@ Definition te_suffices (te : entry) (depth a b : Z) : bool :=
   || ((e_bound te =? 1)%N && ((WinThreshold <? e_value te) || (e_value te <? - WinThreshold))).
 
 (* ---- the move generator ---- *)
-Record mgen := { g_te : option nat; g_pv : list rmove; g_r : rmove; g_ms : option (list rmove); g_i : Z;
+(* g_te: the pointer mg.te (a table index); g_tec: the move of mg.teCopy, the snapshot taken by snapshotTE *)
+Record mgen := { g_te : option nat; g_tec : option rmove; g_pv : list rmove; g_r : rmove; g_ms : option (list rmove); g_i : Z;
                  g_ply : Z; g_depth : Z; g_p : position }.
-Definition set_i (g : mgen) (i : Z) := {| g_te := g_te g; g_pv := g_pv g; g_r := g_r g; g_ms := g_ms g; g_i := i; g_ply := g_ply g; g_depth := g_depth g; g_p := g_p g |}.
+Definition set_i (g : mgen) (i : Z) := {| g_te := g_te g; g_tec := g_tec g; g_pv := g_pv g; g_r := g_r g; g_ms := g_ms g; g_i := i; g_ply := g_ply g; g_depth := g_depth g; g_p := g_p g |}.
 
 Fixpoint insert_sorted (h : rmove * Z) (l : list (rmove * Z)) : list (rmove * Z) :=
   match l with [] => [h] | x :: r => if snd x <? snd h then h :: l else x :: insert_sorted h r end.
 Definition sort_moves (s : sstate) (ms : list rmove) : list rmove :=     (* a stable stand-in for Go's unstable sort.Sort *)
   map fst (fold_right insert_sorted [] (map (fun m => (m, match assoc m (history s) with Some v => v | None => 0 end)) ms)).
 
-Definition te_move (s : sstate) (g : mgen) : option rmove := option_map (fun i => e_m (nth i (table s) entry0)) (g_te g).
+Definition te_move (s : sstate) (g : mgen) : option rmove :=
+  if pinned then option_map (fun i => e_m (nth i (table s) entry0)) (g_te g) else g_tec g.
+(* *mg = moveGenerator{..., te: te}; mg.snapshotTE() *)
+Definition new_gen (s : sstate) (te : option nat) (pv : list rmove) (ply depth : Z) (p : position) : mgen :=
+  {| g_te := te; g_tec := option_map (fun i => e_m (nth i (table s) entry0)) te; g_pv := pv; g_r := move0; g_ms := None; g_i := 0;
+     g_ply := ply; g_depth := depth; g_p := p |}.
 
 Fixpoint mg_next (fuel : nat) (s : sstate) (g : mgen) : mgen * option (rmove * position) :=
   match fuel with O => (g, None) | S f =>
@@ -119,16 +138,16 @@ Fixpoint mg_next (fuel : nat) (s : sstate) (g : mgen) : mgen * option (rmove * p
     else if i =? 2 then
       if g_ply g =? 0 then mg_next f s (set_i g 3) else
       match assoc (znth (fm s) (g_ply g - 1) move0) (response s) with
-      | Some r => let g' := {| g_te := g_te g; g_pv := g_pv g; g_r := r; g_ms := g_ms g; g_i := 3; g_ply := g_ply g; g_depth := g_depth g; g_p := g_p g |} in
+      | Some r => let g' := {| g_te := g_te g; g_tec := g_tec g; g_pv := g_pv g; g_r := r; g_ms := g_ms g; g_i := 3; g_ply := g_ply g; g_depth := g_depth g; g_p := g_p g |} in
                   try g' r
-      | None => mg_next f s {| g_te := g_te g; g_pv := g_pv g; g_r := move0; g_ms := g_ms g; g_i := 3; g_ply := g_ply g; g_depth := g_depth g; g_p := g_p g |}
+      | None => mg_next f s {| g_te := g_te g; g_tec := g_tec g; g_pv := g_pv g; g_r := move0; g_ms := g_ms g; g_i := 3; g_ply := g_ply g; g_depth := g_depth g; g_p := g_p g |}
       end
     else
       (* case 3 (generate / sort) then the default case *)
       let g := if i =? 3 then
                  let ms := match g_ms g with Some ms => ms | None => all_moves (g_p g) end in
                  let ms := if (1 <? g_depth g) && negb (c_nosort cfg) then sort_moves s ms else ms in
-                 {| g_te := g_te g; g_pv := g_pv g; g_r := g_r g; g_ms := Some ms; g_i := 4; g_ply := g_ply g; g_depth := g_depth g; g_p := g_p g |}
+                 {| g_te := g_te g; g_tec := g_tec g; g_pv := g_pv g; g_r := g_r g; g_ms := Some ms; g_i := 4; g_ply := g_ply g; g_depth := g_depth g; g_p := g_p g |}
                else g in
       let j := g_i g - 4 in
       let ms := match g_ms g with Some ms => ms | None => [] end in
@@ -152,7 +171,7 @@ Definition record_cut (s : sstate) (m : rmove) (mvno depth ply : Z) : sstate :=
   let inc := if (0 <=? depth) && (depth <? 63) then 2 ^ depth else 0 in
   let h := assoc_set m ((match assoc m (history s) with Some v => v | None => 0 end) + inc) (history s) in
   let r := if 0 <? ply then assoc_set (znth (fm s) (ply - 1) move0) m (response s) else response s in
-  {| table := table s; history := h; response := r; fpv := fpv s; fm := fm s; st := st s |}.
+  {| table := table s; history := h; response := r; fpv := fpv s; fm := fm s; st := st s; evals := evals s; cancel_at := cancel_at s |}.
 
 Definition bump (s : sstate) (f : stats -> stats) := upd_st s f.
 Definition st_eval (over : bool) (t : stats) : stats :=
@@ -198,7 +217,10 @@ Fixpoint srch (fuel : nat) (zw : bool) (s : sstate) (p : position) (ply depth : 
   : sstate * (list rmove * Z) :=
   match fuel with O => (s, ([], 0)) | S f =>
   let over := is_over p in
-  if (depth <=? 0) || over then (bump s (st_eval over), ([], c_eval cfg p)) else
+  if (depth <=? 0) || over then
+    (let s := bump s (st_eval over) in
+     {| table := table s; history := history s; response := response s; fpv := fpv s; fm := fm s; st := st s;
+        evals := evals s + 1; cancel_at := cancel_at s |}, ([], c_eval cfg p)) else
   let s := bump s (st_add 1 (if zw then 1 else if b =? a + 1 then 1 else 0) 0 0 0 0 0 0 0 0 0) in
   let '(s, te, ret) := tt_probe s p ply depth a (if zw then a + 1 else b) in
   match ret with Some r => (s, r) | None =>
@@ -227,7 +249,7 @@ Fixpoint srch (fuel : nat) (zw : bool) (s : sstate) (p : position) (ply depth : 
           then (bump s (st_add 0 0 0 0 0 0 0 0 1 0 0), depth - 2) else (s, depth)
         else (s, depth)
       else (s, depth) in
-    let g0 := {| g_te := te; g_pv := pv; g_r := move0; g_ms := None; g_i := 0; g_ply := ply; g_depth := depth; g_p := p |} in
+    let g0 := new_gen s te pv ply depth p in
     (* multi-cut *)
     let mc : sstate * mgen * bool :=
       if c_multicut cfg && cut && (3 <? depth) then
@@ -267,9 +289,10 @@ Fixpoint srch (fuel : nat) (zw : bool) (s : sstate) (p : position) (ply depth : 
                let s := record_cut s m i depth ply in
                let best := m :: ms in
                (set_fpv s ply (set_prefix (znth (fpv s) ply []) best), best, true)
-             else loop k' s g i best
+             else if cancelled s then (s, [], false) else loop k' s g i best
            end
          end) 700%nat s g 0 best0 in
+    if negb didcut && cancelled s && match best with [] => true | _ => false end then (s, ([], 0)) else
     let '(s, slot) := tt_put s (phash p) in
     let s := match slot with
              | Some i => let s := write_entry s i (phash p) depth (hd move0 best) a (if didcut then 0%N else 2%N) in
@@ -279,7 +302,7 @@ Fixpoint srch (fuel : nat) (zw : bool) (s : sstate) (p : position) (ply depth : 
     end
   else
     (* ---- pvSearch ---- *)
-    let g0 := {| g_te := te; g_pv := pv; g_r := move0; g_ms := None; g_i := 0; g_ply := ply; g_depth := depth; g_p := p |} in
+    let g0 := new_gen s te pv ply depth p in
     let arr0 := znth (fpv s) ply [] in
     let best0 := match pv with [] => firstn 1 arr0 | _ => pv end in
     let s := set_fpv s ply (set_prefix arr0 best0) in
@@ -302,10 +325,12 @@ Fixpoint srch (fuel : nat) (zw : bool) (s : sstate) (p : position) (ply depth : 
              if a <? v then
                let best := m :: ms in
                let s := set_fpv s ply (set_prefix (znth (fpv s) ply []) best) in
-               if b <=? v then (record_cut s m i depth ply, best, v, true) else loop k' s g i best v true
-             else loop k' s g i best a improved
+               if b <=? v then (record_cut s m i depth ply, best, v, true)
+               else if cancelled s then (s, [], 0, false) else loop k' s g i best v true
+             else if cancelled s then (s, [], 0, false) else loop k' s g i best a improved
            end
          end) 700%nat s g0 0 best0 a false in
+    if cancelled s && match best with [] => true | _ => false end then (s, ([], 0)) else
     let h := phash p in
     let '(s, slot) := tt_put s h in
     let s := match slot with
@@ -320,7 +345,7 @@ Fixpoint srch (fuel : nat) (zw : bool) (s : sstate) (p : position) (ply depth : 
   end
   end.
 
-(* Analyze: iterative deepening (no deadline, no MaxEvals, never cancelled) *)
+(* Analyze: iterative deepening (no deadline, no MaxEvals); result = (pv, value, Stats.Depth, merged Stats, Stats.Canceled) *)
 Definition st_merge (a b : stats) : stats :=
   {| s_evaluated := s_evaluated a + s_evaluated b; s_visited := s_visited a + s_visited b; s_scout := s_scout a + s_scout b;
      s_terminal := s_terminal a + s_terminal b; s_tthits := s_tthits a + s_tthits b; s_ttshortcut := s_ttshortcut a + s_ttshortcut b;
@@ -329,27 +354,74 @@ Definition st_merge (a b : stats) : stats :=
      s_nullsearch := s_nullsearch a + s_nullsearch b; s_nullcut := s_nullcut a + s_nullcut b; s_reduced := s_reduced a + s_reduced b;
      s_mcsearch := s_mcsearch a + s_mcsearch b; s_mccut := s_mccut a + s_mccut b |}.
 
-Definition analyze_search (s0 : sstate) (p : position) : sstate * (list rmove * Z * Z * stats * bool) :=
+Definition analyze_gen (s0 : sstate) (p : position) : sstate * (list rmove * Z * Z * stats * bool) :=
   let s0 := {| table := table s0; history := map (fun kv => (fst kv, Z.quot (snd kv) 2)) (history s0); response := response s0;
-               fpv := fpv s0; fm := fm s0; st := st s0 |} in
-  let '(base, ms0) := match tt_get s0 (phash p) with
-                      | Some i => let te := nth i (table s0) entry0 in if (e_bound te =? 1)%N then (e_depth te, [e_m te]) else (0, [])
-                      | None => (0, []) end in
+               fpv := fpv s0; fm := fm s0; st := st s0; evals := 0; cancel_at := cancel_at s0 |} in
+  let '(base, ms0, v0) := match tt_get s0 (phash p) with
+                      | Some i => let te := nth i (table s0) entry0 in
+                                  if (e_bound te =? 1)%N then (e_depth te, [e_m te], if pinned then 0 else e_value te) else (0, [], 0)
+                      | None => (0, [], 0) end in
   (fix iter (k : nat) (i : Z) (s : sstate) (ms : list rmove) (v : Z) (acc : stats) (d : Z) : sstate * (list rmove * Z * Z * stats * bool) :=
      match k with O => (s, (ms, v, d, acc, false)) | S k' =>
        if c_depth cfg <? i + base then (s, (ms, v, d, acc, false)) else
-       let s := {| table := table s; history := history s; response := response s; fpv := fpv s; fm := fm s; st := stats0 |} in
+       let s := {| table := table s; history := history s; response := response s; fpv := fpv s; fm := fm s; st := stats0; evals := evals s; cancel_at := cancel_at s |} in
        let '(s, (next, nv)) := srch 40 false s p 0 (i + base) ms (MinEval - 1) (MaxEval + 1) true in
-       match next with
+       match (if cancelled s then [] else next) with
        | [] => (s, (ms, v, d, acc, true))
        | _ =>
          let acc := st_merge (st s) acc in
          if (WinThreshold <? nv) || (nv <? - WinThreshold) then (s, (next, nv, i + base, acc, false))
          else iter k' (i + 1) s next nv acc (i + base)
        end
-     end) 16%nat 1 s0 ms0 0 stats0 base.
+     end) 16%nat 1 s0 ms0 v0 stats0 base.
+
+Definition with_cancel (s : sstate) (k : Z) : sstate :=
+  {| table := table s; history := history s; response := response s; fpv := fpv s; fm := fm s; st := st s; evals := 0; cancel_at := k |}.
 
 Definition new_state (table_entries : nat) : sstate :=
   {| table := repeat entry0 table_entries; history := []; response := []; fpv := repeat (repeat move0 max_depth) max_depth;
-     fm := repeat move0 max_depth; st := stats0 |}.
+     fm := repeat move0 max_depth; st := stats0; evals := 0; cancel_at := 0 |}.
+
+(* AnalyzeAll: Analyze, then every root move is searched with the window (v-1, v+1); result = (lines, value, depth, canceled) *)
+Definition analyze_all_gen (s0 : sstate) (p : position) : sstate * (list (list rmove) * Z * Z * bool) :=
+  let '(s, (pv, v, d, _, canc)) := analyze_gen s0 p in
+  match pv with
+  | [] => (s, ([], v, d, canc))
+  | pm :: pvt =>
+    let g0 := new_gen s None pv 0 d p in
+    let '(s, out) :=
+      (fix loop (k : nat) (s : sstate) (g : mgen) (out : list (list rmove)) : sstate * list (list rmove) :=
+         match k with O => (s, out) | S k' =>
+           let '(g, nx) := mg_next 700 s g in
+           match nx with
+           | None => (s, out)
+           | Some (m, child) =>
+             let s := set_fm s 0 m in
+             let '(s, (ms, cv)) := srch 40 false s child 1 (d - 1) pvt (- v - 1) (- v + 1) true in
+             let cv := - cv in
+             if negb (cv =? v) then loop k' s g out
+             else if move_equal m pm then loop k' s g out
+             else loop k' s g (out ++ [m :: ms])
+           end
+         end) 700%nat s g0 [pv] in
+    (s, (out, v, d, canc))
+  end.
 End Srch.
+
+(* the repaired code (what /repo contains now) *)
+Definition analyze_search := analyze_gen false.
+Definition analyze_all := analyze_all_gen false.
+Definition srch_fixed := srch false.
+(* the code before the repairs *)
+Definition analyze_pinned := analyze_gen true.
+(* an Analyze call whose context is cancelled inside the k-th leaf evaluation (k = 0: never) *)
+Definition analyze_cancel (basis : list N) (cfg : config) (k : Z) (s : sstate) (p : position) := analyze_search basis cfg (with_cancel s k) p.
+
+(* ai.EvaluateWinner *)
+Definition evaluate_winner (p : position) : Z :=
+  match game_over p with
+  | Some (true, GNone) => 0
+  | Some (true, w) => let mine := match w with GWhite => to_move_white p | _ => negb (to_move_white p) end in
+                      if mine then Eval.WinBase else - Eval.WinBase
+  | _ => 0
+  end.
